@@ -412,7 +412,7 @@ WAVE5 = {
 for _k, _v in WAVE5.items():
     CHECKS[_k]["text"] = CHECKS[_k]["text"].rstrip() + " Wave 5: " + _v
 
-WAVE6 = {'C04': " Wave 6: '$(NAME)' errors must carry the name exactly as written; one reading of 'letter' for all non-ASCII letters, judged against a probe letter.", 'C05': ' Wave 6: name tokens judged after their lower-cased twin already holds the same value (main and included resource); values with a reference at the edge next to a blank.', 'C06': ' Wave 6: accepted seeds with their last closer missing (fragments that leave a section open while the rest of the text is fine); decoy files in the working directory wherever a reference read as cwd-relative would lead.', 'C08': " Wave 6: every resource through the loader's own openResource (bytes from a URL stream) with leading blank lines.", 'C10': ' Wave 6: default= attribute on a wildcard key.', 'C12': " Wave 6: '%import' arguments of two words.", 'C15': ' Wave 6: seeds with value-less definitions.', 'C16': ' Wave 6: names mapped to None supplied in upper case; a case-variant duplicate holding None next to functions.', 'C19': ' Wave 6: URL-stream reads that deliver bytes which are not valid UTF-8.'}
+WAVE6 = {'C11': ' Wave 6: schema-extends chains whose documents live in different directories (references relative to the containing document).', 'C04': " Wave 6: '$(NAME)' errors must carry the name exactly as written; one reading of 'letter' for all non-ASCII letters, judged against a probe letter.", 'C05': ' Wave 6: name tokens judged after their lower-cased twin already holds the same value (main and included resource); values with a reference at the edge next to a blank.', 'C06': ' Wave 6: accepted seeds with their last closer missing (fragments that leave a section open while the rest of the text is fine); decoy files in the working directory wherever a reference read as cwd-relative would lead.', 'C08': " Wave 6: every resource through the loader's own openResource (bytes from a URL stream) with leading blank lines.", 'C10': ' Wave 6: default= attribute on a wildcard key.', 'C12': " Wave 6: '%import' arguments of two words.", 'C15': ' Wave 6: seeds with value-less definitions.', 'C16': ' Wave 6: names mapped to None supplied in upper case; a case-variant duplicate holding None next to functions.', 'C19': ' Wave 6: URL-stream reads that deliver bytes which are not valid UTF-8.'}
 for _k, _v in WAVE6.items():
     CHECKS[_k]["text"] = CHECKS[_k]["text"].rstrip() + _v
 
